@@ -30,7 +30,9 @@ Definition check (c : case) : codes :=
    | QNone => [code_mismatch]
    end) ++
   (* the property on the observation *)
-  (if (o_leak c || o_marker c) && negb auth then [10%N] else []) ++
+  (* data without authorization: code 10 for GET, the dedicated code 13 for every other method *)
+  (if (o_leak c || o_marker c) && negb auth
+   then (if String.eqb (c_method c) "GET" then [10%N] else [13%N]) else []) ++
   (match ep with
    | Some _ =>
        if auth then (if (o_status c =? 200)%N && (o_marker c || negb (c_format_ok c)) then [] else [11%N])
